@@ -68,6 +68,11 @@ inductive LifeAct where
   | stallreq (id : String)                  -- sends part of a request and stays connected
   | alive (id : String) | cmd (id : String)
   | tlsbad (kind : String) (id : String)    -- a faulty client on the TLS port
+  /-- the application (`portoff`, `SetPort(0)` / `SetTLSPort(0)`) or a connected client (`cfgport`, `CONFIG SET port 0`)
+  disables a port in the configuration while the server runs; `porton` restores it.  The configuration is read by the
+  next Start: a running server keeps the listeners it opened and Stop closes exactly those.  (Domain: between
+  disabling and restoring only Stop and observations occur — the driver rejects other sequences.) -/
+  | portoff (tls : Bool) | porton (tls : Bool) | cfgport (id : String) (tls : Bool)
   | obs
 deriving Repr, Inhabited
 
@@ -113,6 +118,9 @@ def lifeStepA (cfg : LifeCfg) (s : LifeSt) : LifeAct → String × LifeSt
     else if kind == "plaintext" || kind == "garbage" || kind == "abort" then ("rejected", s)
     else if tlsServed cfg (certOf kind) then ("served:ok", { s with calls := s.calls + 1 })
     else ("rejected", s)
+  | .portoff _ => ("ok", s)
+  | .porton _ => ("ok", s)
+  | .cfgport id _ => (if s.has id then "ok" else "gone", s)
   | .obs =>
     let port (on : Bool) : String := if !on then "-" else if s.running then "open" else "closed"
     let loops := if s.running then (if cfg.plain then 1 else 0) + (if cfg.tls then 1 else 0) else 0
@@ -140,6 +148,9 @@ def parseLifeAct (action : String) : Option LifeAct :=
   | ["alive", id] => some (.alive id)
   | ["cmd", id] => some (.cmd id)
   | "tlsbad" :: kind :: rest => some (.tlsbad kind (rest.headD "stall"))
+  | ["portoff", k] => some (.portoff (k == "t"))
+  | ["porton", k] => some (.porton (k == "t"))
+  | ["cfgport", id, k] => some (.cfgport id (k == "t"))
   | ["obs"] => some .obs
   | _ => none
 
